@@ -1,0 +1,29 @@
+//go:build verif
+
+// Read-only accessors used by the verification harness in /verif. Compiled only with -tags verif.
+
+package store
+
+// VerifLayout reports layout facts that no public method exposes: the length of the bin array of
+// the dense family (-1 for other kinds), the buffer length and the number of allocated pages of
+// the buffered paginated store (-1 for other kinds). It never modifies the store.
+func VerifLayout(s Store) (binsLen, bufferLen, allocatedPages int) {
+	binsLen, bufferLen, allocatedPages = -1, -1, -1
+	switch t := s.(type) {
+	case *DenseStore:
+		binsLen = len(t.bins)
+	case *CollapsingLowestDenseStore:
+		binsLen = len(t.bins)
+	case *CollapsingHighestDenseStore:
+		binsLen = len(t.bins)
+	case *BufferedPaginatedStore:
+		bufferLen = len(t.buffer)
+		allocatedPages = 0
+		for _, p := range t.pages {
+			if len(p) > 0 {
+				allocatedPages++
+			}
+		}
+	}
+	return
+}
